@@ -1097,12 +1097,11 @@ def _run_body(ck, env):
     FNS = ("loading_at", "spreading_pressure_at", "pressure_at")
     KINDS = ("linear", "nearest", "nearest-up", "zero", "slinear", "quadratic", "cubic", "previous", "next")
     # fills: none / a number / a (below, above) pair / 'extrapolate' / arrays — two different values of every kind, and near-duplicates
-    FILLS_A = [None, "extrapolate", 3.5, 3.5000001, 1.25, (0.0, 20.0), (0.0, 3.5), (0.0, 3.5000001), (np.array([0.0]), np.array([6.0])), (np.array(0.25), np.array(7.0))]
-    FILLS_B = [None, "extrapolate", 3.5, 1.25, np.array(2.5), np.array([1.5]), np.array(2.5000001)]
-    # TODO(candidate defect of the UNCHANGED library, reported with the notes of round S3-C04): a (below, above) TUPLE fill and an ARRAY fill in
-    # consecutive calls on the same cached interpolator (either order): `cache.interp_fill != interp_fill` broadcasts to two truth values and the
-    # second call raises ValueError("truth value of an array ... is ambiguous") although the same call on a fresh isotherm returns a value.
-    # Until that is repaired no chain mixes tuples and bare arrays (FILLS_A: tuples, FILLS_B: arrays; the other kinds are in both).
+    # ONE list: every ordered pair of value kinds meets in a fill circuit — in particular (below, above) tuples next to bare arrays and numpy numbers,
+    # where `cached_fill != requested_fill` broadcasts to an array that has no truth value (S53-C04: the second call raised ValueError although the
+    # same call on a fresh isotherm returns a value; repaired in the library by comparing the fills kind by kind).
+    FILLS = [None, "extrapolate", 3.5, 3.5000001, 1.25, np.float64(4.75), (0.0, 20.0), (0.0, 3.5), (0.0, 3.5000001), (np.array([0.0]), np.array([6.0])), (np.array(0.25), np.array(7.0)),
+             np.array(2.5), np.array([1.5]), np.array(2.5000001)]
     WHERES = ("in", "above", "below")
     XVARS = (0, 1, 2, 3)
 
@@ -1219,7 +1218,7 @@ def _run_body(ck, env):
         for bi in range(nb):
             if chain_fails[0] > 40:
                 break
-            fills = FILLS_A if rng.random() < 0.65 else FILLS_B
+            fills = FILLS
             base = [FNS[bi % 3], rng.choice(res.branches), "linear" if rng.random() < 0.4 else rng.choice(kinds_w), rng.randrange(len(fills)),
                     0 if rng.random() < 0.6 else rng.randrange(len(res.units)), rng.choices(WHERES, weights=(0.3, 0.4, 0.3))[0], 0]
             for comp, ci in COMPONENTS.items():
@@ -1256,7 +1255,7 @@ def _run_body(ck, env):
         iast_names = [n for n in byname if n.startswith(("iast_", "reverse_iast")) and "model isotherms" not in n and "binary_vle" not in n]
         for world in [rng.choice(measured), rng.choice(synthetic)]:
             for ti in range(ck.n(8, 48)):
-                fills = FILLS_A if rng.random() < 0.65 else FILLS_B
+                fills = FILLS
                 j = rng.randrange(2)
                 c = (rng.choice(FNS[:2]), "ads" if rng.random() < 0.7 else "des", "linear" if rng.random() < 0.7 else rng.choice(KINDS), rng.randrange(len(fills)), 0, rng.choice(WHERES), 0)
                 first = (call_name(c, fills, target=f"pair[{j}]"), lambda o, c=c, j=j, fills=fills: do_call(o["pair"][j], c, fills))
